@@ -297,11 +297,15 @@ func TestVerifC08Child(t *testing.T) {
 	vsChildCrash = &vsCrash{point: j.Point, key: b.ID().Scrub().String(), n: 1}
 	switch j.Op {
 	case "push":
-		_ = s.Push(b)
+		err = s.Push(b)
 	case "delete":
-		_ = s.Delete(b.ID())
+		err = s.Delete(b.ID())
 	}
 	_ = s.Close()
+	if err != nil {
+		fmt.Println("child: operation returned an error before the crash point:", err)
+		os.Exit(6)
+	}
 	os.Exit(0) // the point was not reached
 }
 
@@ -450,6 +454,11 @@ func vsReplay(idx int, ids []string, expiredIds []string, hist []vsStep) (status
 				op, point = "delete", "delete:"+s.At
 			}
 			rc, out := w.child(vsChildJob{Dir: dir, Tag: tag, Id: s.Id, Part: s.Part, Op: op, Point: point, Exp: w.expired[s.Id], Base: base.UnixNano()})
+			if rc == 6 {
+				// the operation the model says writes something gave up with an error (before the point at which it was to be killed)
+				viol(n, "store/"+op+"/error", "operation returned an error: "+strings.TrimSpace(out), nil)
+				return "viol"
+			}
 			if rc != 3 {
 				vhEmit(vhRec{"k": "infra", "v": fmt.Sprintf("crash point %s not reached in child (rc=%d): %s", point, rc, out)})
 				return "infra"
